@@ -19,6 +19,8 @@ def main():
     ap.add_argument("--replay", default=None)
     a = ap.parse_args()
     pid = a.prop.upper()
+    if a.replay:
+        os.environ["VERIF_REPLAY"] = "1"
     try:
         mod = importlib.import_module(pid.lower())
     except ModuleNotFoundError:
